@@ -802,14 +802,14 @@ class NestedSequenceConverter(t.Generic[T, U], Converter[T]):
         """See [`Converter.collect_errors`][pane.converters.Converter.collect_errors]"""
         if (node := self._collect_errors(val)) is not None:
             return node
-        val = self._try_convert(val)
+        result = self._try_convert(val)
         if not self.ragged:
             try:
-                self._check_shape(val)
+                self._check_shape(result)
             except ValueError as e:
                 return WrongTypeError(self.expected(), val, info=e.args[0])
         try:
-            self.constructor(val)
+            self.constructor(result)
         except Exception as e:
             tb = e.__traceback__.tb_next  # type: ignore
             tb = traceback.TracebackException(type(e), e, tb)
@@ -928,11 +928,11 @@ class EnumConverter(Converter[enum.Enum]):
     def collect_errors(self, val: t.Any) -> t.Optional[ErrorNode]:
         """See [`Converter.collect_errors`][pane.converters.Converter.collect_errors]"""
         try:
-            val = self.inner_conv.try_convert(val)
+            conv_val = self.inner_conv.try_convert(val)
         except ParseInterrupt:
             return self.inner_conv.collect_errors(val)
         try:
-            self.val_map[val]
+            self.val_map[conv_val]
             return None
         except (KeyError, TypeError):  # unknown or unhashable value
             return WrongTypeError(self.expected(), val)
